@@ -500,10 +500,17 @@ func (h *ordH) recvMWat(peer int, next MethodHandler) MethodHandler {
 			var err error
 			switch sess := req.GetSession().(type) {
 			case *ServerSession:
-				if tag%2 == 0 {
+				switch tag % 4 {
+				case 0:
 					_, err = sess.ListRoots(cctx, &ListRootsParams{})
-				} else {
+				case 1:
 					err = sess.Ping(cctx, &PingParams{})
+				case 2:
+					_, err = sess.CreateMessageWithTools(cctx, &CreateMessageWithToolsParams{MaxTokens: 5,
+						Messages: []*SamplingMessageV2{{Role: "user", Content: []Content{&TextContent{Text: "x"}}}},
+						Tools:    []*Tool{{Name: "t", InputSchema: map[string]any{"type": "object"}}}})
+				default:
+					_, err = sess.Elicit(cctx, &ElicitParams{Message: "x"})
 				}
 			case *ClientSession:
 				if tag%2 == 0 {
@@ -584,6 +591,10 @@ func (h *ordH) issue(ctx context.Context, i int, cs *ClientSession, ss *ServerSe
 			_, err = ss.CreateMessage(ctx, &CreateMessageParams{MaxTokens: 5, Messages: []*SamplingMessage{{Role: "user", Content: &TextContent{Text: "x"}}}})
 		case "elicit":
 			_, err = ss.Elicit(ctx, &ElicitParams{Message: "x"})
+		case "samplet":
+			_, err = ss.CreateMessageWithTools(ctx, &CreateMessageWithToolsParams{MaxTokens: 5,
+				Messages: []*SamplingMessageV2{{Role: "user", Content: []Content{&TextContent{Text: "x"}}}},
+				Tools:    []*Tool{{Name: "t", InputSchema: map[string]any{"type": "object"}}}})
 		case "ping":
 			err = ss.Ping(ctx, &PingParams{})
 		default:
@@ -1285,7 +1296,7 @@ func ordGen(rng *rand.Rand, tr string, maxLen int) *ordCase {
 				m.kind = 'n'
 				m.meth = []string{"log", "prog"}[rng.Intn(2)]
 			} else {
-				m.meth = []string{"lroots", "sample", "elicit", "ping"}[rng.Intn(4)]
+				m.meth = []string{"lroots", "sample", "elicit", "ping", "samplet"}[rng.Intn(5)]
 			}
 		}
 		if m.kind == 0 {
@@ -1324,7 +1335,7 @@ func ordGen(rng *rand.Rand, tr string, maxLen int) *ordCase {
 		}
 		next := s2cNote()
 		if rng.Intn(10) < 3 {
-			next = ordMsg{dir: "s2c", kind: []byte{'c', 'g'}[rng.Intn(2)], meth: []string{"lroots", "sample", "elicit", "ping"}[rng.Intn(4)], d: dur()}
+			next = ordMsg{dir: "s2c", kind: []byte{'c', 'g'}[rng.Intn(2)], meth: []string{"lroots", "sample", "elicit", "ping", "samplet"}[rng.Intn(5)], d: dur()}
 		}
 		next.rsm = true
 		c.msgs = append(c.msgs, next)
